@@ -56,6 +56,22 @@ Proof. exact l001_check_exact. Qed.
 Theorem C17_l001_location : forall t n col, wft t -> In (n, col) (l001_check t) ->
   exists l, nth_error (split_nl t) (n - 1) = Some l /\ 1 <= n <= length (split_nl t) /\ 1 <= col <= blen l.
 Proof. exact l001_location. Qed.
+(* L002: flagged <-> the line mixes tabs and spaces in its indentation, or is purely indented in another style than
+   the first purely indented line of the text; column 1 of an existing non-empty line *)
+Theorem C17_l002_check_exact : forall t n col,
+  In (n, col) (l002_check t) <->
+  col = 1 /\ 1 <= n /\ exists l, nth_error (split_nl t) (n - 1) = Some l /\ l002_defect 0%N (firstn (n - 1) (split_nl t)) l.
+Proof. exact l002_check_exact. Qed.
+Theorem C17_l002_location : forall t n col, In (n, col) (l002_check t) ->
+  1 <= n <= length (split_nl t) /\ col = 1 /\ exists l, nth_error (split_nl t) (n - 1) = Some l /\ l <> [].
+Proof. exact l002_location. Qed.
+(* L003: flagged <-> line n is blank, the line before it (if any) is not, and more than one blank line follows in a row *)
+Theorem C17_l003_check_exact : forall t n col,
+  In (n, col) (i_l003_check t) <->
+  col = 1 /\ 1 <= n /\ startsG space 0 (split_nl t) (n - 1) /\ 1 < run_from space (split_nl t) (n - 1).
+Proof. exact (l003_check_exact space 1). Qed.
+Theorem C17_l003_location : forall t n col, In (n, col) (i_l003_check t) -> 1 <= n <= length (split_nl t) /\ col = 1.
+Proof. exact (l003_location space 1). Qed.
 Theorem C17_l005_check_exact : forall mx t n col,
   In (n, col) (i_l005_check mx t) <->
   exists l, nth_error (split_nl t) (n - 1) = Some l /\ 1 <= n /\ l <> [] /\
@@ -183,6 +199,10 @@ Print Assumptions C17_l003_fix_clears.
 Print Assumptions C17_l007_fix_clears.
 Print Assumptions C17_l001_check_exact.
 Print Assumptions C17_l001_location.
+Print Assumptions C17_l002_check_exact.
+Print Assumptions C17_l002_location.
+Print Assumptions C17_l003_check_exact.
+Print Assumptions C17_l003_location.
 Print Assumptions C17_l005_check_exact.
 Print Assumptions C17_l001_ws_only.
 Print Assumptions C17_l002_ws_only.
